@@ -195,6 +195,33 @@ Theorem C16_once_n_times :
 Proof. exact StructureP.once_n_times. Qed.
 Print Assumptions C16_once_n_times.
 
+(* the law does not depend on the route that leads to the file: compile_file is the single entry
+   point for a linked file and for an included one, so the k-th compilation (k >= 2) of a '.once'
+   file contributes nothing when the file is given again as a linked file ... *)
+Theorem C16_once_linked_again :
+  forall (P : Type) (emit : P -> Z -> res (list Z)) fs g body k rest a t,
+    fs g = Once :: body -> (1 <= count t g)%nat ->
+    link P emit fs (S k) (g :: rest) a t = link P emit fs (S k) rest a (g :: t).
+Proof. exact StructureP.once_linked_again. Qed.
+Print Assumptions C16_once_linked_again.
+
+(* ... when it is included after having been compiled by any route (linked or included) ... *)
+Theorem C16_once_included_again :
+  forall (P : Type) (emit : P -> Z -> res (list Z)) fs g body k me rest a t,
+    fs g = Once :: body -> (1 <= count t g)%nat ->
+    block P emit (compile_file P emit fs (S k)) me (Include g :: rest) a t
+    = block P emit (compile_file P emit fs (S k)) me rest a (g :: t).
+Proof. exact StructureP.once_included_again. Qed.
+Print Assumptions C16_once_included_again.
+
+(* ... and a '.once' file listed twice among the linked files is the file listed once *)
+Theorem C16_once_listed_twice :
+  forall (P : Type) (emit : P -> Z -> res (list Z)) fs g body k a t,
+    fs g = Once :: body ->
+    image (link P emit fs (S k) [g; g] a t) = image (link P emit fs (S k) [g] a t).
+Proof. exact StructureP.once_listed_twice. Qed.
+Print Assumptions C16_once_listed_twice.
+
 (* ---------------------------------------------------------------------------------------------- *)
 (* hypotheses are satisfiable by non-trivial instances *)
 Definition ex_env (n : string) : option Z := if String.eqb n "a" then Some 8 else None.
